@@ -36,6 +36,7 @@ func (l *Lines) Len() int {
 // Next returns whether the next call of Line will return a valid line.
 func (l *Lines) Next() bool {
 	if l.pos >= l.lines {
+		l.curr = nil
 		return false
 	}
 	ok := l.iter.next()
@@ -101,6 +102,7 @@ func (l *WeightedLines) Len() int {
 // Next returns whether the next call of Line will return a valid line.
 func (l *WeightedLines) Next() bool {
 	if l.pos >= l.lines {
+		l.curr = nil
 		return false
 	}
 	ok := l.iter.next()
